@@ -338,3 +338,121 @@ Theorem C20_mismatched_len_v0_refuted :
   reg_accepts s = false.
 Proof. exact mismatched_len_v0_refuted. Qed.
 Print Assumptions C20_mismatched_len_v0_refuted.
+
+(* ---- TIE TO THE SOURCE CODE: gen/MemProtSrc.v is re-translated from impl/src/memory.rs on every run by
+   tools/translate_memprot.py (debug-build integer semantics of lib/RustInt.v, Vec / slice / iterator operations of
+   model/MemProtOps.v); proofs in proofs/P_C20s.v.  ar_of / ar_to read the translated enum as the model's, prot_of /
+   mp_of the translated struct; usize x = 0 <= x < 2^64; an `impl IntoIterator<Item = usize>` is the list of its items
+   (v_range s e = the items of s..e); reg_of r = the model's register r as an implementor of trait Register. ---- *)
+From Cam Require Import RustInt MemProtOps MemProtSrc P_C20s.
+
+(* enum AccessRight and every method of impl AccessRight: all 4 rights, all 16 pairs, every number given to from_num
+   (outside the table: Panic, as the code's debug_assert! / unreachable!) *)
+Theorem C20_access_right_from_source :
+  (forall r, src_ar_as_num r = Ok (ar_num (ar_of r))) /\
+  (forall r, src_ar_is_readable r = Ok (ar_readable (ar_of r))) /\
+  (forall r, src_ar_is_writable r = Ok (ar_writable (ar_of r))) /\
+  (forall a b, src_ar_meet a b = Ok (ar_to (ar_meet (ar_of a) (ar_of b)))) /\
+  (forall n, src_ar_from_num n = omap ar_to (ar_from_num n)) /\
+  (forall a b, access_right_eqb a b = ar_eqb (ar_of a) (ar_of b)) /\
+  (forall r, ar_of (ar_to r) = r) /\ (forall r, ar_to (ar_of r) = r).
+Proof. exact access_right_from_source. Qed.
+Print Assumptions C20_access_right_from_source.
+
+(* every method of impl MemoryProtection that touches the packed vector: every memory size, address, right, item list
+   and EVERY vector (also ones of the wrong length: the same index panic on both sides) *)
+Theorem C20_protection_from_source :
+  (forall size, usize size -> src_mp_new size = Ok (mp_of (prot_new size))) /\
+  (forall p a r, usize a -> src_mp_set_access_right p a r = omap mp_of (prot_set (prot_of p) a (ar_of r))) /\
+  (forall p a, usize a -> src_mp_access_right p a = omap ar_to (prot_get (prot_of p) a)) /\
+  (forall p l, Forall usize l -> src_mp_access_right_with_range p l = omap ar_to (prot_fold (prot_of p) l RW)) /\
+  (forall p l r, Forall usize l ->
+     src_mp_set_access_right_with_range p l r = omap mp_of (prot_set_list (prot_of p) l (ar_of r))) /\
+  (forall p s e, 0 <= s -> e <= 2 ^ 64 ->
+     src_mp_access_right_with_range p (v_range s e) = omap ar_to (prot_range_right (prot_of p) s e) /\
+     forall r, src_mp_set_access_right_with_range p (v_range s e) r = omap mp_of (prot_set_range (prot_of p) s e (ar_of r))) /\
+  (forall p, mp_of (prot_of p) = p) /\ (forall p, prot_of (mp_of p) = p).
+Proof. exact protection_from_source. Qed.
+Print Assumptions C20_protection_from_source.
+
+(* verify_address / verify_address_with_range: no hypothesis at all; the model's fuelled loop over a Range is the
+   translated loop over the range's items; an empty range is Ok *)
+Theorem C20_verify_from_source :
+  (forall p a, src_mp_verify_address p a = prot_verify (prot_of p) a) /\
+  (forall p l, src_mp_verify_address_with_range p l =
+     if existsb (fun i => mp_memory_size p <=? i) l then Err ME_INVALID_ADDRESS else Ok tt) /\
+  (forall p s e, src_mp_verify_address_with_range p (v_range s e) = prot_verify_range (prot_of p) s e) /\
+  (forall p, src_mp_verify_address_with_range p [] = Ok tt).
+Proof. exact verify_from_source. Qed.
+Print Assumptions C20_verify_from_source.
+
+(* the provided methods of trait Register, for EVERY implementor (any ADDRESS / LENGTH >= 0, any parse / serialize) and
+   every memory slice (a slice is shorter than 2^64); with the model's register as the implementor they are the model's
+   region_of + parse and the default arm of reg_write (a BitField register overrides write in the macro) *)
+Theorem C20_register_rw_from_source :
+  (forall Ty (R : register Ty),
+     src_reg_range R = if rg_ADDRESS R + rg_LENGTH R <? 2 ^ 64 then Ok (rg_ADDRESS R, rg_ADDRESS R + rg_LENGTH R) else Panic) /\
+  (forall Ty (R : register Ty) raw, 0 <= rg_ADDRESS R -> 0 <= rg_LENGTH R -> zlen raw < 2 ^ 64 ->
+     src_reg_read R raw =
+     if zlen raw <? rg_ADDRESS R + rg_LENGTH R then Panic else rg_parse R (take (rg_LENGTH R) (drop (rg_ADDRESS R) raw))) /\
+  (forall Ty (R : register Ty) v raw, 0 <= rg_ADDRESS R -> 0 <= rg_LENGTH R -> zlen raw < 2 ^ 64 ->
+     src_reg_write R v raw =
+     let? data := rg_serialize R v in
+     if zlen raw <? rg_ADDRESS R + rg_LENGTH R then Panic
+     else if zlen data =? rg_LENGTH R then Ok (splice_at (rg_ADDRESS R) data raw) else Panic) /\
+  (forall r raw, 0 <= r_addr r -> 0 <= r_len r -> zlen raw < 2 ^ 64 -> src_reg_read (reg_of r) raw = reg_read r raw) /\
+  (forall r v raw, 0 <= r_addr r -> 0 <= r_len r -> zlen raw < 2 ^ 64 -> is_bitfield (r_ty r) = false ->
+     src_reg_write (reg_of r) v raw = reg_write r v raw).
+Proof. exact register_rw_from_source. Qed.
+Print Assumptions C20_register_rw_from_source.
+
+(* ---- clauses of the property stated on the translated code alone ---- *)
+(* set-then-get on the packed vector: every well-formed vector, every address below the size, every right; all other
+   addresses (same byte or not) keep their right *)
+Theorem C20_protection_cells_of_source : forall p a r, mp_wf p -> mp_memory_size p <= 2 ^ 64 -> 0 <= a < mp_memory_size p ->
+  exists p', src_mp_set_access_right p a r = Ok p' /\ mp_wf p' /\ mp_memory_size p' = mp_memory_size p /\
+    src_mp_access_right p' a = Ok r /\
+    forall a', 0 <= a' < mp_memory_size p -> a' <> a -> src_mp_access_right p' a' = src_mp_access_right p a'.
+Proof. exact protection_cells_of_source. Qed.
+Print Assumptions C20_protection_cells_of_source.
+
+(* MemoryProtection::new: ceil(size / 4) bytes, well formed, every address NA *)
+Theorem C20_protection_new_of_source : forall size, usize size ->
+  exists p, src_mp_new size = Ok p /\ mp_wf p /\ mp_memory_size p = size /\
+    zlen (mp_inner p) = (if size =? 0 then 0 else (size - 1) / 4 + 1) /\
+    forall a, 0 <= a < size -> src_mp_access_right p a = Ok AR_NA.
+Proof. exact protection_new_of_source. Qed.
+Print Assumptions C20_protection_new_of_source.
+
+(* the right of a range is readable / writable exactly when every cell is *)
+Theorem C20_range_right_of_source : forall p l, Forall usize l ->
+  forall r, src_mp_access_right_with_range p l = Ok r ->
+  ar_readable (ar_of r) = forallb (fun i => match src_mp_access_right p i with Ok a => ar_readable (ar_of a) | _ => false end) l /\
+  ar_writable (ar_of r) = forallb (fun i => match src_mp_access_right p i with Ok a => ar_writable (ar_of a) | _ => false end) l.
+Proof. exact range_right_of_source. Qed.
+Print Assumptions C20_range_right_of_source.
+
+(* an address is accepted exactly when it is below the size; a range exactly when all its items are; never a panic *)
+Theorem C20_verify_of_source : forall p,
+  (forall a, src_mp_verify_address p a = Ok tt <-> a < mp_memory_size p) /\
+  (forall a, src_mp_verify_address p a = Err E_InvalidAddress <-> mp_memory_size p <= a) /\
+  (forall l, src_mp_verify_address_with_range p l = Ok tt <-> Forall (fun i => i < mp_memory_size p) l) /\
+  (forall l, src_mp_verify_address_with_range p l <> Panic).
+Proof. exact verify_of_source. Qed.
+Print Assumptions C20_verify_of_source.
+
+(* non-vacuity: the source's own unit test (packed bytes [141; 1]), an error, a panic, run on the translated code *)
+Theorem C20_source_examples :
+  (let? p0 := src_mp_new 5 in let? p1 := src_mp_set_access_right p0 0 AR_RO in let? p2 := src_mp_set_access_right p1 1 AR_RW in
+   let? p3 := src_mp_set_access_right p2 2 AR_NA in let? p4 := src_mp_set_access_right p3 3 AR_WO in
+   let? p5 := src_mp_set_access_right p4 4 AR_RO in
+   let? a := mapM (src_mp_access_right p5) [0; 1; 2; 3; 4] in
+   let? b := mapM (fun '(s, e) => src_mp_access_right_with_range p5 (v_range s e)) [(0, 2); (2, 4); (3, 5)] in
+   Ok (mp_inner p5, a, b)) = Ok ([141; 1], [AR_RO; AR_RW; AR_NA; AR_WO; AR_RO], [AR_RO; AR_NA; AR_NA]) /\
+  (let? p := src_mp_new 5 in src_mp_verify_address_with_range p (v_range 2 5)) = Ok tt /\
+  (let? p := src_mp_new 5 in src_mp_verify_address_with_range p (v_range 2 6)) = Err E_InvalidAddress /\
+  (let? p := src_mp_new 5 in src_mp_access_right p 8) = Panic /\
+  src_ar_from_num 4 = Panic /\ src_ar_meet AR_RO AR_WO = Ok AR_NA /\ src_ar_meet AR_RW AR_WO = Ok AR_WO /\
+  (let? p := src_mp_new 9 in Ok (zlen (mp_inner p))) = Ok 3.
+Proof. exact source_examples. Qed.
+Print Assumptions C20_source_examples.
